@@ -167,6 +167,8 @@ def run_obligations(prop, obs, tier):
     except Exception as e:
         return ([{"id": "M:mir-dump", "engine": "mirsym", "status": "inconclusive", "detail": str(e)[:400],
                   "functions": [], "nontrivial": False}], M_ASSUMPTIONS, [], [])
+    from . import obligations as _ob
+    _ob.TIER["tier"] = tier
     for ob in obs:
         rid = "%s:%s" % (ob.get("kind", "M"), ob["name"])
         res = {"id": rid, "engine": "mirsym" if ob.get("kind", "M") == "M" else "mirsym+interleaving",
